@@ -198,6 +198,23 @@ def G2_presence_tests(repo, clause, scope=ALL_LIB, min_params=0):
                               "but `%s` uses its TRUTH VALUE: the legitimate value 0 is treated as 'not given'" % ast.unparse(hits[0] if isinstance(hits[0], ast.expr) else hits[0].test)[:80]),
                           construct=("def %s(... %s=None ...)" % (fn.name, p)) if not hits else None,
                           slot="none-default:%s" % p, positive=True))
+        # (a') locals that hold "an index or None": min(..., default=None) / max(..., default=None) / next(..., None)
+        for st in [x for x in fn.own_nodes() if isinstance(x, ast.Assign) and len(x.targets) == 1 and isinstance(x.targets[0], ast.Name) and isinstance(x.value, ast.Call)]:
+            c = st.value
+            dflt = next((k.value for k in c.keywords if k.arg == "default"), None)
+            is_opt = (call_name(c) in ("min", "max") and isinstance(dflt, ast.Constant) and dflt.value is None) or \
+                (call_name(c) == "next" and len(c.args) == 2 and isinstance(c.args[1], ast.Constant) and c.args[1].value is None)
+            if not is_opt:
+                continue
+            v = st.targets[0].id
+            n_params += 1
+            hits = _truth_uses(fn, v)
+            obs.append(Ob("G2", clause, fn, hits[0] if hits else st, not hits,
+                          "local `%s` of %s is `%s` (a value or None); %s" % (
+                              v, fn.qualname, ast.unparse(c)[:50],
+                              "every test of it is an identity test against None" if not hits else
+                              "but `%s` uses its TRUTH VALUE: the legitimate value 0 (atom index 0, count 0) is treated as 'nothing found'" % ast.unparse(hits[0] if isinstance(hits[0], ast.expr) else hits[0].test)[:80]),
+                          slot="none-default-local:%s" % v, positive=True))
         # (b) any()/all() over a selection of data; (c) signed sums as presence tests
         for n in fn.own_nodes():
             if isinstance(n, ast.Call) and isinstance(n.func, ast.Name) and n.func.id in ("any", "all") and len(n.args) == 1:
